@@ -1,7 +1,98 @@
 (* C01 — the upgrade plan is exactly the missing ancestors, in dependency order. *)
 From AV Require Export Model.Plan.
 
-Definition input01 : Type := graph * list N * list N.      (* history, resolved targets, current rows *)
+(* the request as the user wrote it, structured (the harness renders it to the string it passes to alembic) *)
+Inductive tgt :=
+| TIds (xs : list N)            (* a full revision id, or a partial id that is a prefix of exactly this one id *)
+| THeads                        (* "heads" *)
+| THead                         (* "head" *)
+| TLabelHead (l:N)              (* "label@head" *)
+| TRelId (x:N) (k:nat)          (* "id+k", k > 0 *)
+| TRelCur (k:nat)               (* "+k" *)
+| TLabelRel (l:N) (k:nat)       (* "label@+k" *)
+| TOther.                       (* any other spelling: no reference verdict *)
+
+Definition input01 : Type := graph * tgt * list N * list N.      (* history, request, resolved targets, current rows *)
+
+(* ---- reference meaning of a request, written from docs/build/tutorial.rst ("Relative Migration
+   Identifiers", "Partial Revision Identifiers") and docs/build/branches.rst ("Referring to all heads at
+   once", "Branch Labels", "label@head", "label@+N"), independently of revision.py ---- *)
+Inductive ref_res := RefOk (xs : list N) | RefError | RefUnknown.
+
+Definition ref_res_eqb (a b : ref_res) : bool :=
+  match a, b with
+  | RefOk x, RefOk y => seteqN x y
+  | RefError, RefError | RefUnknown, RefUnknown => true
+  | _, _ => false
+  end.
+Definition label_rev (G:graph) (l:N) : option N :=
+  match filter (fun r => memN l (r_labels r)) G with [r] => Some (r_id r) | _ => None end.
+Definition down_anc (G:graph) (x:N) : list N := reach_or_nil (down G) G [x].
+(* a revision is on the branch of `lr` when one is a down_revision-ancestor of the other *)
+Definition on_branch (G:graph) (lr c : N) : bool := memN lr (down_anc G c) || memN c (down_anc G lr).
+Definition heads_down (G:graph) : list N := heads_of G.      (* revisions no other revision names as down_revision *)
+
+(* walk k steps towards the heads along down_revision links; every step must have exactly one candidate *)
+Fixpoint walk_up (G:graph) (lbl : option N) (k:nat) (cur : option N) : ref_res :=
+  match k with
+  | O => match cur with Some x => RefOk [x] | None => RefError end
+  | S k' =>
+    let cs0 := match cur with None => bases_of G | Some x => nextrev G x end in
+    let cs := match lbl with Some lr => filter (on_branch G lr) cs0 | None => cs0 end in
+    match cs with
+    | [c] => walk_up G lbl k' (Some c)
+    | _ => RefError
+    end
+  end.
+
+Definition all_anc (G:graph) (X : list N) : list N := reach_or_nil (all_down G) G X.
+(* the applied revisions on the branch of lr that are not an ancestor (through down_revision or depends_on
+   links) of another applied revision of the branch: where the branch currently stands *)
+Definition branch_tips (G:graph) (lr:N) (Cur : list N) : list N :=
+  let applied := filter (on_branch G lr) (all_anc G Cur) in
+  filter (fun x => negb (existsb (fun y => negb (N.eqb x y) && memN x (all_anc G [y])) applied)) applied.
+
+Definition ref_targets (G:graph) (Cur : list N) (t:tgt) : ref_res :=
+  match t with
+  | TIds xs => RefOk xs
+  | THeads => RefOk (real_heads_of G)
+  | THead => match heads_down G with [h] => RefOk [h] | [] => RefUnknown | _ => RefError end
+  | TLabelHead l =>
+      match label_rev G l with
+      | None => RefUnknown
+      | Some lr => match filter (fun h => memN lr (down_anc G h)) (heads_down G) with [h] => RefOk [h] | _ => RefError end
+      end
+  | TRelId x k => match k with O => RefUnknown | _ => walk_up G None k (Some x) end
+  | TRelCur k =>
+      match k, Cur with
+      | O, _ => RefUnknown
+      | _, [] => walk_up G None k None
+      | _, [c] => walk_up G None k (Some c)
+      | _, _ => RefError                      (* ambiguous: several current revisions *)
+      end
+  | TLabelRel l k =>
+      match k, label_rev G l with
+      | O, _ | _, None => RefUnknown
+      | _, Some lr =>
+          match branch_tips G lr Cur with
+          | [] => walk_up G (Some lr) k None
+          | c :: cs =>           (* several places where the branch stands are fine as long as they lead to the same revision *)
+              let r := walk_up G (Some lr) k (Some c) in
+              if forallb (fun c' => ref_res_eqb (walk_up G (Some lr) k (Some c')) r) cs then r else RefError
+          end
+      end
+  | TOther => RefUnknown
+  end.
+
+(* the targets alembic resolved agree with the reference (as sets) whenever the reference speaks;
+   for "heads" what matters is that everything gets applied, i.e. the targets cover the history *)
+Definition ref_agrees (G:graph) (Cur : list N) (t:tgt) (T : list N) : bool :=
+  match t, ref_targets G Cur t with
+  | THeads, _ => subsetN (ids G) (all_anc G T)
+  | _, RefOk xs => seteqN T xs
+  | _, RefError => false
+  | _, RefUnknown => true
+  end.
 
 (* y is an ancestor-or-self of x through down_revision and depends_on links *)
 Definition Anc (G:graph) (x y : N) : Prop := path (all_down G) x y.
@@ -9,7 +100,8 @@ Definition AncOf (G:graph) (X : list N) (y:N) : Prop := exists x, In x X /\ Anc 
 Definition Overlapping (G:graph) (X : list N) : Prop := exists a b, In a X /\ In b X /\ a <> b /\ Anc G a b.
 
 Definition C01_holds (i:input01) (out : pres (list N)) : Prop :=
-  let '(G, T, Cur) := i in
+  let '(G, t, T, Cur) := i in
+  ref_agrees G Cur t T = true /\
   match out with
   | POk plan =>
       NoDup plan /\
@@ -30,7 +122,8 @@ Fixpoint linext (G:graph) (applied plan : list N) : bool :=
   | r :: rest => subsetN (all_down G r) applied && linext G (r :: applied) rest
   end.
 Definition check_C01 (i:input01) (out : pres (list N)) : bool :=
-  let '(G, T, Cur) := i in
+  let '(G, t, T, Cur) := i in
+  ref_agrees G Cur t T &&
   match out with
   | POk plan => nodupb plan && seteqN plan (diffN (ancs G T) (ancs G Cur)) && linext G (ancs G Cur) plan
   | PErr PEOverlap => overlapping G T || overlapping G Cur
@@ -38,7 +131,7 @@ Definition check_C01 (i:input01) (out : pres (list N)) : bool :=
   end.
 
 Definition corr_C01 (i:input01) (out : pres (list N)) : bool :=
-  let '(G, T, Cur) := i in pres_list_eqb (upgrade_plan G T Cur) out.
+  let '(G, t, T, Cur) := i in pres_list_eqb (upgrade_plan G T Cur) out.
 
 (* the class the theorems cover: well-formed acyclic history whose stored normalized
    dependencies are what _normalize_depends_on computes (in any order) *)
@@ -46,5 +139,5 @@ Definition acyclicb (G:graph) : bool :=
   match self_loop G, kahn all_down_r G with None, Some [] => true | _, _ => false end.
 Definition wf_graphb (G:graph) : bool := wf_refsb G && acyclicb G && ndeps_okb G.
 Definition inclass_C01 (i:input01) : bool :=
-  let '(G, T, Cur) := i in wf_graphb G && subsetN T (ids G) && subsetN Cur (ids G).
-Definition model_C01 (i:input01) : pres (list N) := let '(G, T, Cur) := i in upgrade_plan G T Cur.
+  let '(G, t, T, Cur) := i in wf_graphb G && subsetN T (ids G) && subsetN Cur (ids G).
+Definition model_C01 (i:input01) : pres (list N) := let '(G, t, T, Cur) := i in upgrade_plan G T Cur.
